@@ -78,6 +78,7 @@ type Scale struct {
 	cell      map[ssa.Value][3]int
 	fnres     map[*ssa.Function][][3]int
 	Conflicts []ScaleConflict
+	deferred  []scaleDeferred
 	curFn     *ssa.Function
 	curIns    ssa.Instruction
 	curRole   string
@@ -287,6 +288,58 @@ func unitConv(c int) int {
 		return c
 	}
 	return 0
+}
+
+// scaleDeferred: a scaling by 2 or 16. Both are ambiguous in this library: 2 = 128/64 converts between
+// words and 128-bit blocks (`words[2*k]` with k a block index), 16 = 128/8 between bytes and blocks; both
+// are also used as plain unit-preserving growth factors (`cap*2`). The relation k(res) - k(x) may therefore
+// be 0 or d; it is checked after all definite constraints are in, and only when both sides are known.
+type scaleDeferred struct {
+	res, x, d int
+	fn        *ssa.Function
+	ins       ssa.Instruction
+	where     string
+}
+
+// scaled relates the result of `x * 2^c`, `x << c` (down = false) or `x / 2^c`, `x >> c` (down = true).
+func (a *Scale) scaled(res, x, c int, down bool, where string) {
+	d := unitConv(c)
+	if c == 1 || c == 4 {
+		d = c
+	}
+	if !down {
+		d = -d
+	}
+	if c == 1 || c == 4 {
+		a.deferred = append(a.deferred, scaleDeferred{res: res, x: x, d: d, fn: a.curFn, ins: a.curIns, where: where})
+		return
+	}
+	a.union(res, x, d, where)
+}
+
+func (a *Scale) checkDeferred() {
+	u := a.u
+	// a deferred relation whose operand class is otherwise unconstrained keeps the old reading (unit preserving):
+	// it only propagates a known unit, it cannot by itself contradict anything.
+	for _, q := range a.deferred {
+		rr, dr := u.find(q.res)
+		rx, dx := u.find(q.x)
+		var rel int
+		if rr == rx {
+			rel = dr - dx
+		} else {
+			kr, ok1 := u.konst[rr]
+			kx, ok2 := u.konst[rx]
+			if !ok1 || !ok2 {
+				continue
+			}
+			rel = (kr + dr) - (kx + dx)
+		}
+		if rel != 0 && rel != q.d {
+			a.curFn, a.curIns, a.curRole = q.fn, q.ins, "arith scale"
+			a.conflict(fmt.Sprintf("unit relation mismatch: %s relates to %s by 2^%d, the operation (%s) allows 2^0 or 2^%d", u.name[q.res], u.name[q.x], rel, q.where, q.d))
+		}
+	}
 }
 
 func (a *Scale) triple(name string) [3]int {
@@ -559,7 +612,7 @@ func (a *Scale) doFunc(fn *ssa.Function) {
 						if cu, ok := constUint64(x.Y); ok {
 							if c, ok := log2(cu); ok && c >= 1 && c <= 7 {
 								if v, ok := a.V(x.X); ok {
-									a.union(res, v, -unitConv(c), fmt.Sprintf("`*%d` at %s", cu, where))
+									a.scaled(res, v, c, false, fmt.Sprintf("`*%d` at %s", cu, where))
 								}
 							}
 						}
@@ -567,7 +620,7 @@ func (a *Scale) doFunc(fn *ssa.Function) {
 						if cu, ok := constUint64(x.X); ok {
 							if c, ok := log2(cu); ok && c >= 1 && c <= 7 {
 								if v, ok := a.V(x.Y); ok {
-									a.union(res, v, -unitConv(c), fmt.Sprintf("`%d*` at %s", cu, where))
+									a.scaled(res, v, c, false, fmt.Sprintf("`%d*` at %s", cu, where))
 								}
 							}
 						}
@@ -577,7 +630,7 @@ func (a *Scale) doFunc(fn *ssa.Function) {
 						if cu, ok := constUint64(x.Y); ok {
 							if c, ok := log2(cu); ok && c >= 1 && c <= 7 {
 								if v, ok := a.V(x.X); ok {
-									a.union(res, v, unitConv(c), fmt.Sprintf("`/%d` at %s", cu, where))
+									a.scaled(res, v, c, true, fmt.Sprintf("`/%d` at %s", cu, where))
 								}
 							}
 						}
@@ -586,11 +639,7 @@ func (a *Scale) doFunc(fn *ssa.Function) {
 					if yIsC && !xIsC {
 						if c, ok := constInt64(x.Y); ok && c >= 1 && c <= 7 {
 							if v, ok := a.V(x.X); ok {
-								d := unitConv(int(c))
-								if x.Op == token.SHL {
-									d = -d
-								}
-								a.union(res, v, d, fmt.Sprintf("`%s%d` at %s", x.Op, c, where))
+								a.scaled(res, v, int(c), x.Op == token.SHR, fmt.Sprintf("`%s%d` at %s", x.Op, c, where))
 							}
 						}
 					}
@@ -862,6 +911,7 @@ func RunScale(w *World) *Scale {
 			a.union(a.results(b)[ri][1], i, 0, "index built by "+p[0]+" is consumed by "+p[2]+" parameter "+rd.Params[pi].Name())
 		}
 	}
+	a.checkDeferred()
 	a.NValues = len(a.vvar)
 	for _, x := range a.vvar {
 		r, _ := a.u.find(x)
